@@ -4,7 +4,7 @@
 # run against /repo; this is only a test bench for the machinery.
 set -e
 patch="$1"; shift
-SR=/work/seedrepo; SV=/work/seedverif
+SR=/work/seedrepo${SEEDSUFFIX:-}; SV=/work/seedverif${SEEDSUFFIX:-}
 if [ ! -d $SR ]; then git -C /repo worktree add -q --detach $SR HEAD; fi
 git -C $SR checkout -q -- . && git -C $SR clean -fdq -e target
 git -C $SR checkout -q --detach "$(git -C /repo rev-parse HEAD)"
